@@ -12,7 +12,7 @@ from .gates import AsyncController, Controller, CountingSource, Ledger
 from .targets import Boom, Reject, norm_exc
 
 
-def expected_outputs(items, fail, reject, return_x, return_exceptions, preproc):
+def expected_outputs(items, fail, reject, return_x, return_exceptions, preproc, errval=()):
     """Reference meaning: list of outputs and the terminal ('END',) or ('RAISED', exc)."""
     out = []
     for x in items:
@@ -22,6 +22,10 @@ def expected_outputs(items, fail, reject, return_x, return_exceptions, preproc):
         elif x in fail:
             y = norm_exc(Boom(x))
             failed = True
+        elif x in errval:
+            # the worker *returns* an exception object: an ordinary result whatever return_exceptions says
+            y = norm_exc(ValueError('val', x))
+            failed = False
         else:
             y = ('f', ('p', x) if preproc else x)
             failed = False
@@ -69,7 +73,7 @@ def consume(it, ledger, pause=None, stop_after=None):
     return out, term
 
 
-def run_fifo_direct(S, items, *, capacity, return_x, return_exceptions, fail=(), reject=(), preproc=False,
+def run_fifo_direct(S, items, *, capacity, return_x, return_exceptions, fail=(), reject=(), preproc=False, errval=(),
                     controller: Controller, ledger: Ledger, consumer_pause=None, src_pause=None, stop_after=None):
     """fifo_stream whose `func` returns futures completed by the controller."""
     idx = {x: i for i, x in enumerate(items)}
@@ -86,6 +90,8 @@ def run_fifo_direct(S, items, *, capacity, return_x, return_exceptions, fail=(),
                 return
             if x in fail:
                 fut.set_exception(Boom(x))
+            elif x in errval:
+                fut.set_result(ValueError('val', x))
             else:
                 fut.set_result(('f', xx))
 
@@ -100,7 +106,7 @@ def run_fifo_direct(S, items, *, capacity, return_x, return_exceptions, fail=(),
     return out, term, src
 
 
-def run_parmap_thread(S, items, *, concurrency, return_x, return_exceptions, fail=(), controller: Controller,
+def run_parmap_thread(S, items, *, concurrency, return_x, return_exceptions, fail=(), errval=(), controller: Controller,
                       ledger: Ledger, consumer_pause=None, src_pause=None, stop_after=None):
     """Stream.parmap(executor='thread') whose worker calls block on gates opened by the controller."""
     idx = {x: i for i, x in enumerate(items)}
@@ -114,6 +120,8 @@ def run_parmap_thread(S, items, *, concurrency, return_x, return_exceptions, fai
         ledger.leave(x)
         if x in fail:
             raise Boom(x)
+        if x in errval:
+            return ValueError('val', x)
         return ('f', x)
 
     st = S.Stream(src).parmap(work, executor='thread', concurrency=concurrency, return_x=return_x,
@@ -165,7 +173,7 @@ async def aconsume(ait, ledger, stop_after=None):
 
 
 async def run_async_fifo_direct(S, items, *, capacity, return_x, return_exceptions, fail=(), reject=(),
-                                preproc=False, controller: AsyncController, ledger: Ledger, stop_after=None):
+                                preproc=False, errval=(), controller: AsyncController, ledger: Ledger, stop_after=None):
     idx = {x: i for i, x in enumerate(items)}
     src = AsyncCountingSource(items, ledger)
     loop = asyncio.get_running_loop()
@@ -181,6 +189,8 @@ async def run_async_fifo_direct(S, items, *, capacity, return_x, return_exceptio
                 return
             if x in fail:
                 fut.set_exception(Boom(x))
+            elif x in errval:
+                fut.set_result(ValueError('val', x))
             else:
                 fut.set_result(('f', xx))
 
